@@ -3,6 +3,8 @@
 package quadtree
 
 import (
+	"math"
+	"strconv"
 	"strings"
 
 	"github.com/paulmach/orb"
@@ -23,6 +25,38 @@ func (q *Quadtree) VerifDump(id func(orb.Pointer) string) string {
 			sb.WriteString("_")
 		} else {
 			sb.WriteString(id(n.Value))
+		}
+		for i := 0; i < 4; i++ {
+			sb.WriteString(" ")
+			walk(n.Children[i])
+		}
+		sb.WriteString(" )")
+	}
+	walk(q.root)
+	return sb.String()
+}
+
+// VerifDumpFull serialises everything a read-only query could disturb, read from
+// inside the package: the tree's own bound field (not through the Bound accessor)
+// as IEEE-754 bit patterns, then the node tree as in VerifDump with the
+// coordinates of every stored pointer appended to its id ("id@xbits,ybits").
+func (q *Quadtree) VerifDumpFull(id func(orb.Pointer) string) string {
+	bits := func(f float64) string { return strconv.FormatUint(math.Float64bits(f), 16) }
+	var sb strings.Builder
+	sb.WriteString("B " + bits(q.bound.Min[0]) + " " + bits(q.bound.Min[1]) +
+		" " + bits(q.bound.Max[0]) + " " + bits(q.bound.Max[1]) + " T ")
+	var walk func(n *node)
+	walk = func(n *node) {
+		if n == nil {
+			sb.WriteString("N")
+			return
+		}
+		sb.WriteString("( ")
+		if n.Value == nil {
+			sb.WriteString("_")
+		} else {
+			p := n.Value.Point()
+			sb.WriteString(id(n.Value) + "@" + bits(p[0]) + "," + bits(p[1]))
 		}
 		for i := 0; i < 4; i++ {
 			sb.WriteString(" ")
